@@ -231,7 +231,8 @@ class CoordinateReference(
             out.append(f"# {self.construct_type}:")
             identity = self.identity()
             if identity:
-                out[-1] += f" {identity}"
+                # Keep the comment on one line
+                out[-1] += " " + " ".join(f"{identity}".splitlines())
 
         out.append(f"{name} = {namespace}{self.__class__.__name__}()")
 
